@@ -629,5 +629,5 @@ void vf_begin(Ctx& ctx) {
 void vf_end(Ctx& ctx) {
   ctx.cmax("max_descale_error_milli_ulp", (long long)std::llround(g_worst_ulp * 1000));
   ctx.count("gp_candidates_tried", g_gc.tries);
-  ctx.count("gp_candidates_rejected", g_gc.rejected); ctx.count("gp_flat_dense_scanline_scenes", g_gc.flat); ctx.count("gp_scenes_with_crossing_a_hair_past_a_scanline", g_gc.tie);
+  ctx.count("gp_candidates_rejected", g_gc.rejected); ctx.count("gp_flat_dense_scanline_scenes", g_gc.flat); ctx.count("gp_scenes_with_crossing_a_hair_past_a_scanline", g_gc.tie); ctx.count("gp_scenes_with_a_corner_whose_cross_product_is_an_exact_power_of_two", g_gc.wrap);
 }
